@@ -50,6 +50,8 @@ struct Step {
     level: Vec<u8>,
     #[serde(default)]
     res: String,
+    #[serde(default)]
+    race: bool,
 }
 
 #[derive(Deserialize)]
@@ -613,7 +615,7 @@ async fn run_task_scenario(sc: &Scenario, sink: &Sink) {
                     Some(tx) if !tx.is_closed() => tx,
                     _ => continue,
                 };
-                sink.emit(json!({"e":"connector","res":st.res}));
+                sink.emit(json!({"e":"connector","res":st.res,"race":st.race}));
                 if st.res == "ok" {
                     let (io, h) = script_io(sink.clone());
                     h.record_tx(true);
@@ -633,6 +635,16 @@ async fn run_task_scenario(sc: &Scenario, sink: &Sink) {
                     sink.emit(json!({"e":"cmd","kind":st.kind}));
                     let kind = st.kind.clone();
                     let level = decode_level(&st.level);
+                    if st.race {
+                        // in the queue before anything else runs (capacity permitting)
+                        let _ = match kind.as_str() {
+                            "enable" => ch.enable().await,
+                            "disable" => ch.disable().await,
+                            "decode" => ch.set_decode_level(level).await,
+                            _ => ch.shutdown().await,
+                        };
+                        continue;
+                    }
                     tokio::spawn(async move {
                         let _ = match kind.as_str() {
                             "enable" => ch.enable().await,
@@ -653,6 +665,10 @@ async fn run_task_scenario(sc: &Scenario, sink: &Sink) {
                 _ => continue,
             },
             _ => continue,
+        }
+        if st.race && st.op != "connector" {
+            // the next step happens in the same instant: no settling in between
+            continue;
         }
         if !settle(sink, std::slice::from_ref(&polls)).await {
             sink.emit(json!({"e":"stuck","why":"client task keeps being polled without becoming idle"}));
